@@ -191,6 +191,31 @@ pub fn gen(rng: &mut Rng, n: usize, sink: &mut Sink, focus: &str) {
                         let l = *rng.pick(&limit_vals);
                         sink.exec(&format!("tx {} {} setFlowLimit 0 - {}", hex::encode(&caller), hex::encode(&tm), args(&[nat(l)])));
                     }
+                    8 if rng.chance(1, 2) => {
+                        // directed: a large flow under a high limit, the limit lowered inside the epoch, then
+                        // transfers the other way around the new limit and around the recorded opposite flow
+                        let out_first = rng.chance(1, 2);
+                        let hi = *rng.pick(&[1000u128, 1000, 500]);
+                        let big = *rng.pick(&[400u128, 300, 450]);
+                        let lo = *rng.pick(&[10u128, 100, 50]);
+                        let give = |sink: &mut Sink, rng: &mut Rng, a: u128| {
+                            let dest = user(rng.below(6) as u8);
+                            sink.exec(&format!("tx {} {} giveToken 0 - {}", hex::encode(&service), hex::encode(&tm), args(&[dest, nat(a)])));
+                        };
+                        let take = |sink: &mut Sink, a: u128| {
+                            let (egld, esdt) = if tokname == "EGLD" { (a.to_string(), "-".to_string()) } else { ("0".to_string(), format!("{}:0:{}", tokname, a)) };
+                            sink.exec(&format!("tx {} {} takeToken {} {} -", hex::encode(&service), hex::encode(&tm), egld, esdt));
+                        };
+                        sink.exec(&format!("tx {} {} setFlowLimit 0 - {}", hex::encode(&service), hex::encode(&tm), args(&[nat(hi)])));
+                        if out_first { take(sink, big) } else { give(sink, rng, big) }
+                        sink.exec(&format!("tx {} {} setFlowLimit 0 - {}", hex::encode(&service), hex::encode(&tm), args(&[nat(lo)])));
+                        for _ in 0..rng.range(1, 3) {
+                            let a = *rng.pick(&[lo + 1, big, big - 1, lo, big + lo, big + lo + 1, lo - 1, 2 * lo]);
+                            if out_first { give(sink, rng, a) } else { take(sink, a) }
+                            sink.exec(&format!("query {} flowInAmount -", hex::encode(&tm)));
+                            sink.exec(&format!("query {} flowOutAmount -", hex::encode(&tm)));
+                        }
+                    }
                     _ => {
                         now += *rng.pick(&[1u64, 100, EPOCH - 1, EPOCH, EPOCH + 1, 3 * EPOCH]);
                         sink.exec(&format!("time {}", now));
